@@ -468,7 +468,7 @@ def rule_i(chk, prog):
     chk.floor("C04.i", n_adj, 10, "comparisons with the adjusted field capacity in drainage")
 
 
-def rule_d(chk, prog):
+def rule_d(chk, prog, rule="C04.d"):
     """the submergence factor 1 - day_submerged / LagAer scales surface transpiration: it is evaluated only where
     day_submerged <= LagAer (order facts; the day counter is an integer: x < t and x := x + 1 give x <= t)"""
     import re
@@ -497,13 +497,13 @@ def rule_d(chk, prog):
                 wit = p.pa.describe()[:200]
         construct = norm(a)
         if ok:
-            chk.ok("C04.d", where, construct, "evaluated only where day_submerged <= LagAer: the factor is >= 0")
+            chk.ok(rule, where, construct, "evaluated only where day_submerged <= LagAer: the factor is >= 0")
         else:
-            chk.violation("C04.d", where, construct,
+            chk.violation(rule, where, construct,
                           "the submergence factor can be negative: nothing establishes day_submerged <= LagAer where it is computed "
                           "(the counter is incremented after a non-strict test), so surface transpiration - and the reported Tr - "
                           "can become negative on ponded fields", loc=tr.loc(a), witness=wit)
-    chk.floor("C04.d", found, 1, "submergence-factor computations")
+    chk.floor(rule, found, 1, "submergence-factor computations")
     chk.assume("A-16")
 
 
